@@ -147,7 +147,7 @@ def extract(config, key):
         lock.close()
 
 
-def prune_cache(keep, maxn=12):
+def prune_cache(keep, maxn=40):
     base = os.path.join(WORK, "facts")
     ds = [d for d in glob.glob(os.path.join(base, "*")) if os.path.isdir(d)]
     ds.sort(key=os.path.getmtime, reverse=True)
